@@ -29,6 +29,7 @@ LAYOUTS = ['alt-first-use', 'top-sticky', 'home', 'alt-existing', 'top-sticky-an
 LAYOUTS_D = LAYOUTS + ['fallback-cross-volume', 'home-trash-is-a-link-to-another-volume']
 
 
+VERBOSE = [0]   # set by the -vv obligation around a case (the diagnostics printed on the way must not change the outcome)
 FORCE = [False]  # set by the -f obligations around a case (the option must not turn a failure into a silent success)
 
 
@@ -60,7 +61,7 @@ def scenario(kind, layout):
         args = ['--home-fallback']
         e['TRASH_ENABLE_HOME_FALLBACK'] = '1'
     world = W.W(mounts=K.MOUNTS, cwd=cwd, nodes=nodes)
-    return world, C('put', args + (['-f'] if FORCE[0] else []) + ['--', 'x'], e, cwd=cwd), src
+    return world, C('put', args + (['-f'] if FORCE[0] else []) + ['-v'] * VERBOSE[0] + ['--', 'x'], e, cwd=cwd, passwd=not VERBOSE[0]), src
 
 
 def _run(kind, layout, faults, persistent, hook=None):
@@ -215,6 +216,23 @@ def w_single(kind: int, layout: int, k: int, e: int) -> str:
     return _single(rt.sel(kind, 6), rt.sel(layout, 6), rt.sel(k, 72), rt.sel(e, 10))
 
 
+def _single_vv(kind, layout, k, e):
+    VERBOSE[0] = 2
+    try:
+        return _single(kind, layout, k, e)
+    finally:
+        VERBOSE[0] = 0
+
+
+def w_single_vv(kind: int, layout: int, k: int, e: int) -> str:
+    """
+    pre: PARTITION is None or (kind == PARTITION[0] and layout == PARTITION[1])
+    pre: 0 <= kind < 6 and 0 <= layout < 6 and 0 <= k < 72 and 0 <= e < 10
+    post: _ == ''
+    """
+    return _single_vv(rt.sel(kind, 6), rt.sel(layout, 6), rt.sel(k, 72), rt.sel(e, 10))
+
+
 def w_single_f(kind: int, layout: int, k: int, e: int) -> str:
     """
     pre: PARTITION is None or (kind == PARTITION[0] and layout == PARTITION[1])
@@ -254,6 +272,8 @@ def obligations(tier):
                                  '%d kinds x 6 candidate layouts' % len(set(p[0] for p in parts))),
         CH('W_single_fault_with_force_option', MOD, 'w_single_f', timeout=1800, partitions=[(k, l) for k in (0, 2, 5) for l in range(6)], engine='W', regime='selector', encodes=enc,
            stubs=K.STUBS, bounds='trash-put -f: fault index k in 0..71 x 10 errnos (incl. ENOENT) x 3 kinds (file, directory, dangling link) x 6 layouts'),
+        CH('W_single_fault_with_debug_output', MOD, 'w_single_vv', timeout=1800, partitions=[(k, l) for k in (0, 5) for l in range(6)], engine='W', regime='selector', encodes=enc + ['MyLogger / StreamBackend (-vv)'],
+           stubs=K.STUBS, bounds='trash-put -vv: fault index k in 0..71 x 10 errnos x 2 kinds (file, dangling link) x 6 layouts; the debug lines (resolved lazily) must not change the outcome; no uid or gid has an entry in the password / group database'),
         CH('W_persistent_fault', MOD, 'w_persistent', timeout=1800, partitions=parts, engine='W', regime='selector', encodes=enc,
            stubs=K.STUBS, bounds='same space; after the first injection every later call of the same kind in the same directory fails too'),
     ]
